@@ -52,6 +52,7 @@ class Ctx:
         self.assumptions: List[str] = []
         self.functions_analysed: set = set()
         self.extra: Dict[str, object] = {}
+        self.shortfalls: List[str] = []
         self.t0 = time.time()
         self._types = None
 
@@ -97,10 +98,19 @@ class Ctx:
     def floor(self, rule_prefix: str, minimum: int):
         n = sum(1 for o in self.obs if o.rule.startswith(rule_prefix) and o.status != "info")
         if n < minimum:
-            raise AnalysisError(
+            self.soft_fail(
                 f"rule {rule_prefix} matched {n} instances, below the hand-confirmed floor {minimum}: "
                 f"the rule no longer sees the code it was written for"
             )
+
+    def soft_fail(self, msg: str):
+        """A coverage shortfall: fatal (exit 2) unless the run also found a violation, which is the
+        more specific answer (a deleted release both breaks pairing and lowers the instance count)."""
+        self.shortfalls.append(msg)
+
+    def end_of_run(self):
+        if self.shortfalls and not any(o.status == "violation" for o in self.obs):
+            raise AnalysisError("; ".join(self.shortfalls))
 
     # ---- types (lazy; only typed rules pay for mypy)
     @property
